@@ -607,7 +607,9 @@ def main(prop, harness_factory, *, level, explanation, assumptions, trusted_base
     distinct = len(st["distinct"])
     cov = dict(
         explanation=explanation,
-        technique="per-path symbolic execution of the real code objects (symx/symnp) + z3 %s discharge" % z3.get_version_string(),
+        technique="per-path symbolic execution of the real code objects (symx/symnp) + z3 %s discharge" % z3.get_version_string() + (
+            "; binary64 harnesses (*.float64): IEEE FloatingPoint(11,53) terms decided by the cvc5 binary (QF_FP), z3 as fall-back"
+            if any(getattr(h, "fp", False) for h in hs) else ""),
         functions_encoded=res.functions,
         harnesses=res.harness_rows,
         paths_explored=st["paths"], paths_ok=st["ok"], paths_raised=st["raised"], paths_outside_model=st["outside"],
